@@ -110,6 +110,13 @@ breaking('MS1-unmask', {'C18': 'MS1'}, edit=[(M + 'state/_internal.py', "       
 breaking('K2-precedence', {'C18': 'K2'}, edit=[(M + 'state/_internal.py', "ret = np.eye(d*d) / (d*d)", "ret = np.eye(d*d) / d*d")])
 breaking('H4-cancel-noninvolution', {'C07': 'H4'}, edit=[(M + 'sim/clifford.py', "        self.gate_index_list.append((key, index))\n", "        if self.gate_index_list and self.gate_index_list[-1]==(key, index):\n            self.gate_index_list.pop()\n        else:\n            self.gate_index_list.append((key, index))\n")])
 
+breaking('M1-little-endian', {'C11': 'M1'}, edit=[(M + 'sim/state.py', "bitstr = [int(x) for x in bin(ind1)[2:].rjust(len(index),'0')]", "bitstr = [int((ind1>>x)&1) for x in range(len(index))]")])
+preserving('keep-bitstr-shift-big-endian', ['C11'], [(M + 'sim/state.py', "bitstr = [int(x) for x in bin(ind1)[2:].rjust(len(index),'0')]", "bitstr = [int((ind1>>(len(index)-1-x))&1) for x in range(len(index))]")])
+
+breaking('R1-op-transposed', {'C03': 'R1'}, edit=[(M + 'sim/state.py', "ret = opt_einsum.contract(tmp0, tmp1, tmp2, tmp3+tuple(index), tmp5).reshape(-1)", "ret = opt_einsum.contract(tmp0, tmp1, tmp2, tuple(index)+tmp3, tmp5).reshape(-1)")])
+breaking('R1-dm-missing-conj', {'C03': 'R1'}, edit=[(M + 'sim/dm.py', "tmp2 = np.conjugate(op).reshape([2 for _ in range(2*N0)])", "tmp2 = op.reshape([2 for _ in range(2*N0)])")])
+breaking('R1-opgrad-transposed', {'C04': 'R1'}, edit=[(M + 'sim/state.py', "        tmp4 = list(index) + list(range(num_qubit,num_qubit+len(index)))\n", "        tmp4 = list(range(num_qubit,num_qubit+len(index))) + list(index)\n")])
+
 # ---- behaviour-preserving edits that must stay silent
 preserving('keep-rename-generator', ['C10'], [(M + 'random/_internal.py', "    np_rng = get_numpy_rng(seed)\n    assert dim>=2\n    tmp0 = np.triu(np_rng.integers(0, 2, size=(dim,dim)), 1)", "    gen = get_numpy_rng(seed)\n    assert dim>=2\n    tmp0 = np.triu(gen.integers(0, 2, size=(dim,dim)), 1)")])
 preserving('keep-positional-seed', ['C10'], [(M + 'random/_internal.py', "ret = rand_haar_state(dimA*dimB, seed=np_rng)", "ret = rand_haar_state(dimA*dimB, True, np_rng)")])
